@@ -903,4 +903,182 @@ theorem mandOK_of_noMand : ∀ (fs : List Field) (vs : List Val), noMandFs fs = 
     simp [mandOK, mandF_of_noMand f v h.1, mandOK_of_noMand fs vs h.2]
 end
 
+/-! ### read-only attributes: the code as it is versus the repaired schema -/
+
+theorem FTy.isDefault_parse_nil (ty : FTy) (hw : ty.wf = true) : ty.isDefault (ty.parse []) = true := by
+  cases ty with
+  | str => rfl
+  | nat b => simp [FTy.parse, FTy.isDefault, lenientNat_nil]
+  | optNat b => simp [FTy.parse, FTy.isDefault, strictNat_nil]
+  | flag ts =>
+    simp only [FTy.wf, Bool.and_eq_true, Bool.not_eq_true', contains_false_iff] at hw
+    simp [FTy.parse, FTy.isDefault, hw.2]
+  | enum ns =>
+    simp only [FTy.wf, Bool.and_eq_true, Bool.not_eq_true', contains_false_iff] at hw
+    simp [FTy.parse, FTy.isDefault, idxOf_none_of_not_mem hw.1]
+  | enumD ns d =>
+    simp only [FTy.wf, Bool.and_eq_true, Bool.not_eq_true', contains_false_iff] at hw
+    simp [FTy.parse, FTy.isDefault, idxOf_none_of_not_mem hw.1]
+  | b64 => rfl
+
+mutual
+theorem decF_fix : ∀ (f : Field) (pns : Str) (x : Node), decF pns x (fixF f) = decF pns x f
+  | .attr .., _, _ => rfl
+  | .attrReadOnly .., _, _ => by simp [fixF, decF]
+  | .text _, _, _ => rfl
+  | .enumChild .., _, _ => rfl
+  | .child h fs m, pns, x => by
+    simp only [fixF, decF]
+    split
+    · rw [decFs_fix fs]
+    · rw [decFs_fix fs]
+  | .many h fs ne, pns, x => by
+    simp only [fixF, decF]
+    congr 1
+    apply List.map_congr_left
+    intro k _
+    rw [decFs_fix fs]
+theorem decFs_fix : ∀ (fs : List Field) (pns : Str) (x : Node), decFs pns x (fixFs fs) = decFs pns x fs
+  | [], _, _ => rfl
+  | f :: fs, pns, x => by simp only [fixFs, decFs, decF_fix f, decFs_fix fs]
+end
+
+mutual
+theorem encF_fix_reset : ∀ (f : Field) (pns : Str) (v : Val), wfF pns (fixF f) = true →
+    encF (fixF f) (resetF f v) = encF f v
+  | .attr .., _, _, _ => rfl
+  | .attrReadOnly n ty, pns, v, hw => by
+    simp only [fixF, wfF, Bool.and_eq_true] at hw
+    simp [fixF, resetF, encF, FTy.isDefault_parse_nil ty hw.2]
+  | .text _, _, _, _ => rfl
+  | .enumChild .., _, _, _ => rfl
+  | .child h fs m, pns, v, hw => by
+    simp only [fixF, wfF, Bool.and_eq_true] at hw
+    cases v with
+    | record vs => simp only [fixF, resetF, Val.mapRecord, encF, encFs_fix_reset fs h.ns vs hw.2]
+    | _ => rfl
+  | .many h fs ne, pns, v, hw => by
+    simp only [fixF, wfF, Bool.and_eq_true] at hw
+    cases v with
+    | list items =>
+      simp only [fixF, resetF, encF, List.map_map]
+      congr 1
+      apply List.map_congr_left
+      intro it _
+      cases it with
+      | record vs => simp only [Function.comp, Val.mapRecord, Val.recVals, encFs_fix_reset fs h.ns vs hw.2]
+      | _ => simp only [Function.comp, Val.mapRecord, Val.recVals, encFs_fix_nil fs]
+    | _ => rfl
+theorem encFs_fix_reset : ∀ (fs : List Field) (pns : Str) (vs : List Val), wfFs pns (fixFs fs) = true →
+    encFs (fixFs fs) (resetFs fs vs) = encFs fs vs
+  | [], _, _, _ => by simp [fixFs, encFs]
+  | f :: fs, _, [], _ => by simp [fixFs, resetFs, encFs]
+  | f :: fs, pns, v :: vs, hw => by
+    simp only [fixFs] at hw
+    obtain ⟨h1, _, h3⟩ := wfFs_cons hw
+    simp only [fixFs, resetFs, encFs, encF_fix_reset f pns v h1, encFs_fix_reset fs pns vs h3]
+theorem encFs_fix_nil : ∀ (fs : List Field), encFs (fixFs fs) [] = encFs fs []
+  | [] => rfl
+  | f :: fs => by simp [fixFs, encFs]
+end
+
+mutual
+theorem encF_reset : ∀ (f : Field) (v : Val), encF f (resetF f v) = encF f v
+  | .attr .., _ => rfl
+  | .attrReadOnly .., _ => by simp [encF]
+  | .text _, _ => rfl
+  | .enumChild .., _ => rfl
+  | .child h fs m, v => by
+    cases v with
+    | record vs => simp only [resetF, Val.mapRecord, encF, encFs_reset fs vs]
+    | _ => rfl
+  | .many h fs ne, v => by
+    cases v with
+    | list items =>
+      simp only [resetF, encF, List.map_map]
+      congr 1
+      apply List.map_congr_left
+      intro it _
+      cases it with
+      | record vs => simp only [Function.comp, Val.mapRecord, Val.recVals, encFs_reset fs vs]
+      | _ => rfl
+    | _ => rfl
+theorem encFs_reset : ∀ (fs : List Field) (vs : List Val), encFs fs (resetFs fs vs) = encFs fs vs
+  | [], _ => by simp [encFs]
+  | f :: fs, [] => by simp [resetFs]
+  | f :: fs, v :: vs => by simp only [resetFs, encFs, encF_reset f v, encFs_reset fs vs]
+end
+
+mutual
+theorem canonF_fix_reset : ∀ (f : Field) (v : Val), canonF f v = true → canonF (fixF f) (resetF f v) = true
+  | .attr .., _, h => h
+  | .attrReadOnly n ty, v, _ => by simp only [fixF, resetF, canonF, FTy.canon_parse]
+  | .text _, _, h => h
+  | .enumChild .., _, h => h
+  | .child hd fs m, v, h => by
+    cases v with
+    | record vs =>
+      simp only [canonF] at h
+      simp only [fixF, resetF, Val.mapRecord, canonF, canonFs_fix_reset fs vs h]
+    | absent => simpa [fixF, resetF, Val.mapRecord, canonF] using h
+    | _ => simp [canonF] at h
+  | .many hd fs ne, v, h => by
+    cases v with
+    | list items =>
+      simp only [canonF, List.all_eq_true] at h
+      simp only [fixF, resetF, canonF, List.all_eq_true, List.mem_map]
+      rintro it' ⟨it, hit, rfl⟩
+      have := h it hit
+      cases it with
+      | record vs => simp only [Val.mapRecord]; simp only at this; exact canonFs_fix_reset fs vs this
+      | _ => simp at this
+    | _ => simp [canonF] at h
+theorem canonFs_fix_reset : ∀ (fs : List Field) (vs : List Val), canonFs fs vs = true →
+    canonFs (fixFs fs) (resetFs fs vs) = true
+  | [], [], _ => by simp [fixFs, resetFs, canonFs]
+  | [], _ :: _, h => by simp [canonFs] at h
+  | _ :: _, [], h => by simp [canonFs] at h
+  | f :: fs, v :: vs, h => by
+    simp only [canonFs, Bool.and_eq_true] at h
+    simp only [fixFs, resetFs, canonFs, Bool.and_eq_true]
+    exact ⟨canonF_fix_reset f v h.1, canonFs_fix_reset fs vs h.2⟩
+end
+
+mutual
+theorem mandF_fix : ∀ (f : Field) (v : Val), mandF (fixF f) v = mandF f v
+  | .attr .., _ => rfl
+  | .attrReadOnly .., _ => by simp [fixF, mandF]
+  | .text _, _ => rfl
+  | .enumChild .., _ => rfl
+  | .child h fs m, v => by
+    cases v with
+    | record vs => simp only [fixF, mandF, mandOK_fix fs vs]
+    | _ => rfl
+  | .many h fs ne, v => by cases v <;> rfl
+theorem mandOK_fix : ∀ (fs : List Field) (vs : List Val), mandOK (fixFs fs) vs = mandOK fs vs
+  | [], _ => by simp [fixFs, mandOK]
+  | f :: fs, [] => by simp [fixFs, mandOK]
+  | f :: fs, v :: vs => by simp only [fixFs, mandOK, mandF_fix f v, mandOK_fix fs vs]
+end
+
+mutual
+theorem mandF_reset : ∀ (f : Field) (v : Val), mandF f (resetF f v) = mandF f v
+  | .attr .., _ => rfl
+  | .attrReadOnly .., _ => by simp [mandF]
+  | .text _, _ => rfl
+  | .enumChild .., _ => rfl
+  | .child h fs m, v => by
+    cases v with
+    | record vs => simp only [resetF, Val.mapRecord, mandF, mandOK_reset fs vs]
+    | _ => rfl
+  | .many h fs ne, v => by
+    cases v with
+    | list items => simp [resetF, mandF]
+    | _ => rfl
+theorem mandOK_reset : ∀ (fs : List Field) (vs : List Val), mandOK fs (resetFs fs vs) = mandOK fs vs
+  | [], _ => by simp [resetFs]
+  | f :: fs, [] => by simp [resetFs]
+  | f :: fs, v :: vs => by simp only [resetFs, mandOK, mandF_reset f v, mandOK_reset fs vs]
+end
+
 end Qx.Xml.Codec
